@@ -80,18 +80,23 @@ func (bi *BodyInspector) Inspect(ctx context.Context, r *http.Request, profile *
 		return nil
 	}
 
+	// The pooled buffer goes back to the pool when this function returns and is then
+	// overwritten by the next request, so the restored body must own its bytes.
+	bodyBytes := make([]byte, buffer.Len())
+	copy(bodyBytes, buffer.Bytes())
+
 	// Restore the body for downstream handlers by creating a new reader that combines
 	// what we've already read with any remaining unread content
-	r.Body = io.NopCloser(io.MultiReader(bytes.NewReader(buffer.Bytes()), r.Body))
+	r.Body = io.NopCloser(io.MultiReader(bytes.NewReader(bodyBytes), r.Body))
 
-	modelName := bi.extractModelName(buffer.Bytes())
+	modelName := bi.extractModelName(bodyBytes)
 	if modelName != "" {
 		profile.ModelName = modelName
 		bi.logger.Debug("Extracted model name from request body", "model", modelName)
 	}
 
 	// Detect required capabilities from the request
-	capabilities := bi.detectRequiredCapabilities(buffer.Bytes())
+	capabilities := bi.detectRequiredCapabilities(bodyBytes)
 	if capabilities != nil {
 		// Only set capabilities if they require special features beyond basic chat
 		if capabilities.VisionUnderstanding || capabilities.FunctionCalling ||
